@@ -53,6 +53,11 @@ CLAIMED = {
    note="'ignores its argument' is decided by an over-approximating slice (library state objects modelled through their method calls, copy/stores into local slices followed); mp4ff trusted.",
    technique="static analysis: dependence slices over SSA (sibling agreement on callee identity and argument sources), who-may-use rule on constants, dominance rule on encryption calls",
    ref="DESIGN.md §3 C10"),
+ "C11": dict(
+   text="Static analysis of structural necessary conditions of the patch service: the handler's errors.Is branches answer 425 (same publishTime) and 410 (beyond time-to-live), each sentinel is returned under its defining test and reaches the handler unchanged, and after an error answer the handler touches the ResponseWriter no more; the patch's originalPublishTime/publishTime attributes are the publishTime attributes of the old/new document; writer/reader agreement on mandatory ids: for every element kind in the differ's id switch the MPD generator stores an id under no condition other than 'patch requested'/'id absent'/loops (Representation ids come from the VoD MPD: reviewed exception); no store to MPD.publishTime can follow the call that builds the patch location. Patch application reproducing the new MPD is not decided.",
+   note="etree/XML semantics not modelled; control dependence with error-only exits pruned.",
+   technique="static analysis: status-table and sentinel path rules, typestate walk (respond once), writer/reader table agreement with control-dependence rule, CFG ordering rule",
+   ref="DESIGN.md §3 C11"),
  "C18": dict(
    text="Static analysis (SSA control-flow walk + range/guard analysis) of two structural necessary conditions: every callback/read error is returned on all non-nil paths, and the box-walk cursor provably advances and cannot wrap. Decides those clauses for every input and read schedule; does not decide output equality.",
    note="Trusts go/types, go/ssa; VTA call graph for reachability; integer overflow only modelled where a rule says so.",
